@@ -26,7 +26,17 @@ def handle : List String → List String → Option String
       -- the property quantifies over well-formed layouts only
       some "unspecified"
     else match image L.leaves vs with
-      | none => some "unspecified"   -- some value is outside its domain: C18 is silent (C04 covers the shipped layouts)
+      | none =>
+        -- some value is outside its domain: the image rule is silent about that field, but the encoder neither panics
+        -- nor lets the value reach beyond its field
+        if vs.length != L.leaves.length then some "unspecified" else
+        (match impl with
+         | ["panic"] => some "bad encoding panicked (a value outside the domain of its field may be refused, never crash the caller)"
+         | ["ok", h] => (match fromHex h with
+            | some out => if confined L.leaves vs out then some "ok"
+                          else some "bad a value outside the domain of its field changed bytes outside that field (every other position is the other fields' bytes, the protocol id or zero)"
+            | none => none)
+         | _ => some "unspecified")
       | some img => some (Driver.expect ("ok " ++ showHex img) impl)
   | "unmarshal" :: _, ["changed-an-earlier-decoded-value"] =>
     some "bad decoding into a variable that was decoded into before must not change a copy kept of the earlier value (every decoded value is the decoding of its own message)"
